@@ -163,6 +163,31 @@ def create_range_from_length(length_range):
     return Range(range_rule_text)
 
 
+def _with_ellipsis_as_colon(description):
+    """
+    Same as ``description`` but with any :py:const:`ELLIPSIS` outside of
+    quoted text replaced by a colon (:) because starting with Python 3.12
+    the tokenizer merges non ASCII characters with adjacent names and numbers.
+    """
+    result = ""
+    quote = None
+    is_escaped = False
+    for character in description:
+        if quote is None:
+            if character in "\"'":
+                quote = character
+            elif character == ELLIPSIS:
+                character = ":"
+        elif is_escaped:
+            is_escaped = False
+        elif character == "\\":
+            is_escaped = True
+        elif character == quote:
+            quote = None
+        result += character
+    return result
+
+
 def _decimal_as_text(decimal_value, precision=DEFAULT_PRECISION):
     """
     Decimal value formatted as text always using a ``#.###`` format because
@@ -211,7 +236,7 @@ class Range(object):
 
             name_for_code = "range"
             location = None  # TODO: Add location where range is declared.
-            tokens = _tools.tokenize_without_space(self._description)
+            tokens = _tools.tokenize_without_space(_with_ellipsis_as_colon(self._description))
             end_reached = False
             while not end_reached:
                 lower = None
@@ -545,7 +570,7 @@ class DecimalRange(Range):
         else:
             self._description = description.replace("...", ELLIPSIS)
             self._items = []
-            tokens = _tools.tokenize_without_space(self._description)
+            tokens = _tools.tokenize_without_space(_with_ellipsis_as_colon(self._description))
             end_reached = False
             max_digits_after_dot = 0
             max_digits_before_dot = 0
